@@ -1,10 +1,777 @@
-//! S-CONC (C17): placeholder, filled in below.
+//! S-CONC (C17): M muxer scripts executed by K real threads under a seeded
+//! baton scheduler. Exactly one thread runs at any time; at every yield point
+//! (before an API call, inside every simulated sink write) the baton goes back
+//! to the scheduler, which picks who continues. Muxers migrate between threads
+//! by value. The recorded decision list is the schedule.
+
+use crate::case::*;
+use crate::checks::RunStats;
+use crate::exec::{self, Driver, OpRec, Res};
+use crate::hooks;
+use crate::oracle::{normalise, op_entry, v, Violation};
+use crate::rng::{Hasher64, Rng};
+use crate::sink::{LogHandle, SimSink};
 use serde::{Deserialize, Serialize};
+use std::cell::RefCell;
+use std::io::{BufWriter, Cursor, Write};
+use std::sync::atomic::Ordering;
+use std::sync::{Arc, Condvar, Mutex};
+
+#[derive(Clone, Debug, Serialize, Deserialize, PartialEq)]
+pub enum Dec {
+    /// thread t starts the next op of muxer m
+    Start { t: usize, m: usize },
+    /// thread t, parked inside a sink write, continues
+    Resume { t: usize },
+    /// the wall clock jumps by delta seconds
+    Clock { delta: i64 },
+}
 
 #[derive(Clone, Debug, Serialize, Deserialize)]
-pub struct ConcCase {}
+pub struct ConcCase {
+    pub scripts: Vec<ProgCase>,
+    pub threads: usize,
+    pub clock0: i64,
+    /// entropy seed handed to each spawned thread
+    pub entropy: Vec<u64>,
+    pub sched_seed: u64,
+    /// recorded schedule; empty = derive from sched_seed
+    #[serde(default)]
+    pub decisions: Vec<Dec>,
+    /// some scripts read the wall clock at build time (`with_current_time`)
+    #[serde(default)]
+    pub ctime_now: Vec<bool>,
+    /// "equivalent API paths" mode: scripts = [base, variant], no threads; the name of the transformation
+    #[serde(default)]
+    pub pair: Option<String>,
+}
+
 impl ConcCase {
-    pub fn size(&self) -> usize { 0 }
-    pub fn shrink(&self) -> Vec<ConcCase> { Vec::new() }
-    pub fn sample_view(&self, scenario: &str) -> serde_json::Value { serde_json::json!({"scenario": scenario}) }
+    pub fn size(&self) -> usize {
+        self.scripts.iter().map(|s| s.ops.len()).sum::<usize>() + self.threads
+    }
+    pub fn shrink(&self) -> Vec<ConcCase> {
+        let mut out = Vec::new();
+        if self.pair.is_some() {
+            return out;
+        }
+        for i in 0..self.scripts.len() {
+            if self.scripts.len() > 1 {
+                let mut c = self.clone();
+                c.scripts.remove(i);
+                if c.ctime_now.len() > i {
+                    c.ctime_now.remove(i);
+                }
+                c.decisions.clear();
+                out.push(c);
+            }
+        }
+        if self.threads > 1 {
+            let mut c = self.clone();
+            c.threads = (self.threads / 2).max(1);
+            c.entropy.truncate(c.threads);
+            c.decisions.clear();
+            out.push(c);
+        }
+        for i in 0..self.scripts.len() {
+            for s in crate::checks::shrink_prog(&self.scripts[i]).into_iter().take(12) {
+                let mut c = self.clone();
+                c.scripts[i] = s;
+                c.decisions.clear();
+                out.push(c);
+            }
+        }
+        out
+    }
+    pub fn sample_view(&self, scenario: &str) -> serde_json::Value {
+        serde_json::json!({
+            "scenario": scenario,
+            "muxers": self.scripts.len(),
+            "threads": self.threads,
+            "sink_types": self.scripts.iter().map(|s| format!("{:?}", s.cfg.sink)).collect::<Vec<_>>(),
+            "ops_per_muxer": self.scripts.iter().map(|s| s.ops.len()).collect::<Vec<_>>(),
+            "clock0": self.clock0,
+            "schedule_head": self.decisions.iter().take(24).collect::<Vec<_>>(),
+            "schedule_len": self.decisions.len(),
+        })
+    }
+}
+
+pub fn gen(rng: &mut Rng) -> ConcCase {
+    let m = rng.range(1, 8) as usize;
+    let threads = rng.range(1, 16) as usize;
+    let mut k = crate::gen::Knobs::functional();
+    k.long_pct = 0;
+    k.short_max = 6;
+    k.invalid_pct = 10;
+    k.after_finish_pct = 30;
+    k.no_finish_pct = 5;
+    k.long_title_pct = 0;
+    let mut scripts = Vec::new();
+    let mut ctime_now = Vec::new();
+    for _ in 0..m {
+        let (mut c, _) = crate::gen::gen_prog(rng, &k);
+        c.cfg.sink = *rng.pick(&[SinkKind::Sim, SinkKind::Sim, SinkKind::VecU8, SinkKind::Cursor, SinkKind::MutRefVec, SinkKind::BoxDyn, SinkKind::BufWriterSim]);
+        // invariant-log operations between ops
+        if rng.chance(1, 3) {
+            let n = rng.range(1, 3);
+            for _ in 0..n {
+                let pos = rng.usize(c.ops.len() + 1);
+                c.ops.insert(pos, if rng.bool() { Op::ClearLog } else { Op::ReadLog });
+            }
+        }
+        c.faults = FaultPlan::default();
+        ctime_now.push(rng.chance(1, 5));
+        scripts.push(c);
+    }
+    let entropy = (0..threads).map(|_| rng.next_u64()).collect();
+    let clock0 = *rng.pick(&[0i64, 1, 951782400, 1700000000, 4102444800, 253402300799, 32503680000]);
+    ConcCase { scripts, threads, clock0, entropy, sched_seed: rng.next_u64(), decisions: Vec::new(), ctime_now, pair: None }
+}
+
+// ---------------------------------------------------------------- muxers behind one interface
+
+pub trait AnyMux: Send {
+    fn step(&mut self, op: &Op);
+    fn recs(&self) -> &[OpRec];
+    fn log_reads(&self) -> &[Vec<String>];
+    /// drop the muxer and return the bytes its sink received, if observable
+    fn finish_output(self: Box<Self>) -> Option<Vec<u8>>;
+}
+
+enum Out {
+    Log(LogHandle),
+    /// leaked Vec recovered after the muxer is gone
+    Raw(*mut Vec<u8>),
+    Unobservable,
+}
+// the raw pointer is only dereferenced after the muxer that borrowed it has been dropped
+unsafe impl Send for Out {}
+
+struct MuxBox<W: Write + Send> {
+    d: Driver<W>,
+    out: Out,
+}
+
+impl<W: Write + Send> AnyMux for MuxBox<W> {
+    fn step(&mut self, op: &Op) {
+        self.d.step(op)
+    }
+    fn recs(&self) -> &[OpRec] {
+        &self.d.recs
+    }
+    fn log_reads(&self) -> &[Vec<String>] {
+        &self.d.log_reads
+    }
+    fn finish_output(self: Box<Self>) -> Option<Vec<u8>> {
+        let MuxBox { mut d, out } = *self;
+        drop(d.muxer.take()); // BufWriter flushes here
+        match out {
+            Out::Log(l) => Some(std::mem::take(&mut l.lock().unwrap().bytes)),
+            Out::Raw(p) => Some(*unsafe { Box::from_raw(p) }),
+            Out::Unobservable => None,
+        }
+    }
+}
+
+fn yield_hook() -> Arc<dyn Fn() + Send + Sync> {
+    Arc::new(|| {
+        let cur = CUR.with(|c| c.borrow().clone());
+        if let Some((sh, me)) = cur {
+            sh.park(me);
+        }
+    })
+}
+
+fn build_any(cfg: &ProgCfg, now: bool) -> (Option<Box<dyn AnyMux>>, Res) {
+    let mut cfg = cfg.clone();
+    if now {
+        // the builder call `Metadata::with_current_time()` is the one sanctioned clock read
+        let t = muxide::api::Metadata::new().with_current_time().creation_time;
+        let m = cfg.meta.get_or_insert_with(MetaCfg::default);
+        m.ctime = t;
+        m.style = 0;
+    }
+    macro_rules! mk {
+        ($sink:expr, $out:expr) => {{
+            let (mx, res) = exec::build_muxer($sink, &cfg);
+            (Some(Box::new(MuxBox { d: Driver::new(mx), out: $out }) as Box<dyn AnyMux>), res)
+        }};
+    }
+    match cfg.sink {
+        SinkKind::Sim => {
+            let (mut s, log) = SimSink::new(FaultPlan::default());
+            s.yield_hook = Some(yield_hook());
+            mk!(s, Out::Log(log))
+        }
+        SinkKind::BoxDyn => {
+            let (mut s, log) = SimSink::new(FaultPlan::default());
+            s.yield_hook = Some(yield_hook());
+            let b: Box<dyn Write + Send> = Box::new(s);
+            mk!(b, Out::Log(log))
+        }
+        SinkKind::BufWriterSim => {
+            let (mut s, log) = SimSink::new(FaultPlan::default());
+            s.yield_hook = Some(yield_hook());
+            mk!(BufWriter::with_capacity(97, s), Out::Log(log))
+        }
+        SinkKind::VecU8 => mk!(Vec::<u8>::new(), Out::Unobservable),
+        SinkKind::Cursor => {
+            let p: *mut Vec<u8> = Box::into_raw(Box::new(Vec::new()));
+            let r: &'static mut Vec<u8> = unsafe { &mut *p };
+            mk!(Cursor::new(r), Out::Raw(p))
+        }
+        SinkKind::MutRefVec => {
+            let p: *mut Vec<u8> = Box::into_raw(Box::new(Vec::new()));
+            let r: &'static mut Vec<u8> = unsafe { &mut *p };
+            mk!(r, Out::Raw(p))
+        }
+    }
+}
+
+// ---------------------------------------------------------------- baton scheduler
+
+#[derive(Clone, Copy, PartialEq, Debug)]
+enum Turn {
+    Driver,
+    Thread(usize),
+}
+
+enum Cmd {
+    Run { m: usize },
+    Exit,
+}
+
+struct St {
+    turn: Turn,
+    cmd: Vec<Option<Cmd>>,
+    parked: Vec<bool>,
+    busy: Vec<bool>,
+    slots: Vec<Option<Box<dyn AnyMux>>>,
+    next_op: Vec<usize>,
+    /// which thread executed each op of each muxer (migration evidence)
+    ran_on: Vec<Vec<usize>>,
+}
+
+struct Shared {
+    m: Mutex<St>,
+    cv: Condvar,
+    ops: Vec<Vec<Op>>,
+}
+
+thread_local! {
+    static CUR: RefCell<Option<(Arc<Shared>, usize)>> = const { RefCell::new(None) };
+}
+
+impl Shared {
+    /// called on a worker thread from inside a sink write: hand the baton back and wait
+    fn park(&self, me: usize) {
+        let mut g = self.m.lock().unwrap();
+        g.parked[me] = true;
+        g.turn = Turn::Driver;
+        self.cv.notify_all();
+        while g.turn != Turn::Thread(me) {
+            g = self.cv.wait(g).unwrap();
+        }
+        g.parked[me] = false;
+    }
+}
+
+fn worker(sh: Arc<Shared>, me: usize, seed: u64) {
+    hooks::THREAD_ENTROPY.with(|c| c.set(seed));
+    CUR.with(|c| *c.borrow_mut() = Some((sh.clone(), me)));
+    loop {
+        let mut g = sh.m.lock().unwrap();
+        while g.turn != Turn::Thread(me) {
+            g = sh.cv.wait(g).unwrap();
+        }
+        match g.cmd[me].take() {
+            Some(Cmd::Exit) | None => {
+                g.turn = Turn::Driver;
+                sh.cv.notify_all();
+                break;
+            }
+            Some(Cmd::Run { m }) => {
+                let mut mux = g.slots[m].take().expect("harness: muxer slot empty");
+                let opi = g.next_op[m];
+                g.next_op[m] += 1;
+                g.ran_on[m].push(me);
+                g.busy[me] = true;
+                drop(g);
+                // the op itself may park (and so give up the baton) inside sink writes
+                mux.step(&sh.ops[m][opi]);
+                let mut g = sh.m.lock().unwrap();
+                g.slots[m] = Some(mux);
+                g.busy[me] = false;
+                g.turn = Turn::Driver;
+                sh.cv.notify_all();
+            }
+        }
+    }
+    CUR.with(|c| *c.borrow_mut() = None);
+}
+
+pub struct ConcOut {
+    pub recs: Vec<Vec<OpRec>>,
+    pub builds: Vec<Res>,
+    pub outputs: Vec<Option<Vec<u8>>>,
+    pub log_reads: Vec<Vec<Vec<String>>>,
+    pub decisions: Vec<Dec>,
+    pub migrations: u64,
+    pub switches_inside_finish: u64,
+    pub clock_min: i64,
+    pub clock_max: i64,
+}
+
+pub fn run_conc(case: &ConcCase) -> ConcOut {
+    exec::install_panic_hook();
+    let m = case.scripts.len();
+    let k = case.threads.max(1);
+    hooks::SIM_CLOCK_SECS.store(case.clock0, Ordering::SeqCst);
+    hooks::SIM_CLOCK_ON.store(true, Ordering::SeqCst);
+    hooks::SIM_ENTROPY_ON.store(true, Ordering::SeqCst);
+    let mut builds = Vec::new();
+    let mut slots: Vec<Option<Box<dyn AnyMux>>> = Vec::new();
+    for (i, s) in case.scripts.iter().enumerate() {
+        let (mx, res) = build_any(&s.cfg, case.ctime_now.get(i).copied().unwrap_or(false));
+        builds.push(res);
+        slots.push(mx);
+    }
+    let sh = Arc::new(Shared {
+        m: Mutex::new(St { turn: Turn::Driver, cmd: (0..k).map(|_| None).collect(), parked: vec![false; k], busy: vec![false; k], slots, next_op: vec![0; m], ran_on: vec![Vec::new(); m] }),
+        cv: Condvar::new(),
+        ops: case.scripts.iter().map(|s| s.ops.clone()).collect(),
+    });
+    let mut handles = Vec::new();
+    for t in 0..k {
+        let sh2 = sh.clone();
+        let seed = case.entropy.get(t).copied().unwrap_or(t as u64);
+        handles.push(std::thread::spawn(move || worker(sh2, t, seed)));
+    }
+    let mut rng = Rng::new(case.sched_seed);
+    let replaying = !case.decisions.is_empty();
+    let mut feed = case.decisions.iter();
+    let mut decisions: Vec<Dec> = Vec::new();
+    let mut clock = case.clock0;
+    let (mut cmin, mut cmax) = (clock, clock);
+    let mut switches_inside_finish = 0u64;
+    loop {
+        let g = sh.m.lock().unwrap();
+        // what can happen next?
+        let parked: Vec<usize> = (0..k).filter(|&t| g.parked[t]).collect();
+        let idle_threads: Vec<usize> = (0..k).filter(|&t| !g.parked[t] && !g.busy[t]).collect();
+        let ready_mux: Vec<usize> = (0..m).filter(|&i| g.slots[i].is_some() && g.next_op[i] < sh.ops[i].len()).collect();
+        drop(g);
+        if parked.is_empty() && ready_mux.is_empty() {
+            break;
+        }
+        let feasible = |d: &Dec| -> bool {
+            match d {
+                Dec::Resume { t } => parked.contains(t),
+                Dec::Start { t, m } => idle_threads.contains(t) && ready_mux.contains(m),
+                Dec::Clock { .. } => true,
+            }
+        };
+        let mut dec: Option<Dec> = None;
+        if replaying {
+            for d in feed.by_ref() {
+                if feasible(d) {
+                    dec = Some(d.clone());
+                    break;
+                }
+            }
+        }
+        let dec = match dec {
+            Some(d) => d,
+            None => {
+                if replaying {
+                    // schedule exhausted (or edited): finish deterministically
+                    if let Some(&t) = parked.first() {
+                        Dec::Resume { t }
+                    } else {
+                        Dec::Start { t: idle_threads[0], m: ready_mux[0] }
+                    }
+                } else {
+                    let can_start = !idle_threads.is_empty() && !ready_mux.is_empty();
+                    let r = rng.below(100);
+                    if r < 6 {
+                        let delta = *rng.pick(&[1i64, -1, 3600, -3600, 86400 * 365, -86400 * 365, 31_556_952_000, -31_556_952_000, 1 << 33]);
+                        Dec::Clock { delta }
+                    } else if !parked.is_empty() && (!can_start || rng.chance(1, 2)) {
+                        Dec::Resume { t: *rng.pick(&parked) }
+                    } else if can_start {
+                        Dec::Start { t: *rng.pick(&idle_threads), m: *rng.pick(&ready_mux) }
+                    } else {
+                        Dec::Resume { t: parked[0] }
+                    }
+                }
+            }
+        };
+        decisions.push(dec.clone());
+        match dec {
+            Dec::Clock { delta } => {
+                clock = clock.saturating_add(delta).max(0);
+                cmin = cmin.min(clock);
+                cmax = cmax.max(clock);
+                hooks::SIM_CLOCK_SECS.store(clock, Ordering::SeqCst);
+            }
+            Dec::Resume { t } => {
+                let mut g = sh.m.lock().unwrap();
+                if !parked.is_empty() {
+                    switches_inside_finish += 1;
+                }
+                g.turn = Turn::Thread(t);
+                sh.cv.notify_all();
+                while g.turn != Turn::Driver {
+                    g = sh.cv.wait(g).unwrap();
+                }
+            }
+            Dec::Start { t, m } => {
+                let mut g = sh.m.lock().unwrap();
+                if !parked.is_empty() {
+                    switches_inside_finish += 1;
+                }
+                g.cmd[t] = Some(Cmd::Run { m });
+                g.turn = Turn::Thread(t);
+                sh.cv.notify_all();
+                while g.turn != Turn::Driver {
+                    g = sh.cv.wait(g).unwrap();
+                }
+            }
+        }
+    }
+    // shut the threads down one by one
+    for t in 0..k {
+        let mut g = sh.m.lock().unwrap();
+        g.cmd[t] = Some(Cmd::Exit);
+        g.turn = Turn::Thread(t);
+        sh.cv.notify_all();
+        while g.turn != Turn::Driver {
+            g = sh.cv.wait(g).unwrap();
+        }
+    }
+    for h in handles {
+        let _ = h.join();
+    }
+    let mut g = sh.m.lock().unwrap();
+    let mut recs = Vec::new();
+    let mut outputs = Vec::new();
+    let mut log_reads = Vec::new();
+    let mut migrations = 0u64;
+    for i in 0..m {
+        let mx = g.slots[i].take();
+        match mx {
+            Some(b) => {
+                recs.push(b.recs().to_vec());
+                log_reads.push(b.log_reads().to_vec());
+                outputs.push(b.finish_output());
+            }
+            None => {
+                recs.push(Vec::new());
+                log_reads.push(Vec::new());
+                outputs.push(None);
+            }
+        }
+        migrations += g.ran_on[i].windows(2).filter(|w| w[0] != w[1]).count() as u64;
+    }
+    drop(g);
+    hooks::SIM_CLOCK_ON.store(false, Ordering::SeqCst);
+    hooks::SIM_ENTROPY_ON.store(false, Ordering::SeqCst);
+    ConcOut { recs, builds, outputs, log_reads, decisions, migrations, switches_inside_finish, clock_min: cmin, clock_max: cmax }
+}
+
+/// The reference: the same script alone, on the calling thread, into a plain recording sink.
+fn reference(script: &ProgCase, now: bool, clock0: i64) -> (Res, Vec<OpRec>, Vec<u8>) {
+    let mut c = script.clone();
+    c.cfg.sink = SinkKind::Sim;
+    if now {
+        let m = c.cfg.meta.get_or_insert_with(MetaCfg::default);
+        m.ctime = Some(clock0.max(0) as u64);
+        m.style = 0;
+    }
+    let ex = exec::run_prog(&c);
+    (ex.build, ex.ops, ex.sink.bytes)
+}
+
+pub fn eval(case: &ConcCase, st: &mut RunStats) -> Vec<Violation> {
+    let mut out = Vec::new();
+    let refs: Vec<(Res, Vec<OpRec>, Vec<u8>)> = case.scripts.iter().enumerate().map(|(i, s)| reference(s, case.ctime_now.get(i).copied().unwrap_or(false), case.clock0)).collect();
+    let reads0 = hooks::CLOCK_READS.load(Ordering::SeqCst);
+    let co = run_conc(case);
+    let reads = hooks::CLOCK_READS.load(Ordering::SeqCst) - reads0;
+    let sanctioned = case.ctime_now.iter().filter(|b| **b).count() as u64;
+    st.count("muxers", case.scripts.len() as u64);
+    st.count("threads", case.threads as u64);
+    st.count("muxer_migrations_between_threads", co.migrations);
+    st.count("context_switches_while_a_finish_was_in_progress", co.switches_inside_finish);
+    st.count("schedule_decisions", co.decisions.len() as u64);
+    st.count("clock_reads_observed", reads);
+    for d in &co.decisions {
+        match d {
+            Dec::Clock { .. } => *st.fired.entry("clock_jump").or_insert(0) += 1,
+            Dec::Resume { .. } => *st.fired.entry("resume_inside_sink_write").or_insert(0) += 1,
+            Dec::Start { .. } => {}
+        }
+    }
+    *st.fired.entry("thread_migration").or_insert(0) += co.migrations;
+    *st.fired.entry("entropy_reseed_per_thread").or_insert(0) += case.threads as u64;
+    st.clock_jumps = (co.clock_min - case.clock0, co.clock_max - case.clock0);
+    let mut th = Hasher64::new();
+    for d in &co.decisions {
+        th.str(&format!("{:?}", d));
+    }
+    let mut rec_case = case.clone();
+    rec_case.decisions = co.decisions.clone();
+    let mut push = |out: &mut Vec<Violation>, st: &mut RunStats, x: Violation| {
+        st.violating_cases.push((x.class.clone(), x.key.clone(), serde_json::to_value(crate::checks::AnyCase::Conc(rec_case.clone())).unwrap()));
+        out.push(x);
+    };
+    if reads != sanctioned {
+        push(&mut out, st, v("C17", "clock-read", "unsanctioned", format!("the wall clock was read {} times during the scenario; only {} builder calls of with_current_time() may read it", reads, sanctioned)));
+    }
+    for (i, s) in case.scripts.iter().enumerate() {
+        let (rb, rrecs, rbytes) = &refs[i];
+        if co.builds[i] != *rb {
+            push(&mut out, st, v("C17", "build-result-differs", format!("{:?}", s.cfg.sink), format!("muxer {}: build returned {} in the simulated world, {} alone", i, co.builds[i].short(), rb.short())));
+            continue;
+        }
+        for (j, op) in s.ops.iter().enumerate() {
+            let a = co.recs[i].get(j);
+            let b = rrecs.get(j);
+            let same = match (a, b) {
+                (Some(a), Some(b)) => {
+                    (match (&a.res, &b.res) {
+                        (Res::Err { debug: d1, .. }, Res::Err { debug: d2, .. }) => d1 == d2,
+                        (x, y) => x == y,
+                    }) && a.stats == b.stats
+                }
+                _ => false,
+            };
+            th.str(&a.map(|a| a.res.short()).unwrap_or_default());
+            if !same {
+                let is_panic = matches!(a.map(|a| &a.res), Some(Res::Panic { .. }));
+                let key = if is_panic {
+                    if let Some(Res::Panic { msg, .. }) = a.map(|a| &a.res) {
+                        format!("panic:{}:{}", op_entry(op), normalise(msg))
+                    } else {
+                        String::new()
+                    }
+                } else {
+                    format!("{}:{:?}", op_entry(op), s.cfg.sink)
+                };
+                push(
+                    &mut out,
+                    st,
+                    v(
+                        "C17",
+                        "return-value-differs",
+                        key,
+                        format!(
+                            "muxer {} (sink {:?}) op {} ({}): {} / stats {:?} under the schedule, {} / stats {:?} alone",
+                            i,
+                            s.cfg.sink,
+                            j,
+                            op_entry(op),
+                            a.map(|a| a.res.short()).unwrap_or_default(),
+                            a.and_then(|a| a.stats),
+                            b.map(|b| b.res.short()).unwrap_or_default(),
+                            b.and_then(|b| b.stats)
+                        ),
+                    ),
+                );
+                break;
+            }
+        }
+        if let Some(bytes) = &co.outputs[i] {
+            th.bytes(bytes);
+            if bytes != rbytes {
+                let pos = bytes.iter().zip(rbytes.iter()).position(|(a, b)| a != b).unwrap_or(bytes.len().min(rbytes.len()));
+                push(&mut out, st, v("C17", "output-differs", format!("{:?}", s.cfg.sink), format!("muxer {} (sink {:?}): {} bytes under the schedule, {} alone; first difference at byte {}", i, s.cfg.sink, bytes.len(), rbytes.len(), pos)));
+            }
+        }
+    }
+    st.trace_hash = th.finish();
+    // abstract: numbers of muxers/threads, sink kinds, schedule shape
+    let mut a = Hasher64::new();
+    a.u64(case.scripts.len() as u64);
+    a.u64(case.threads as u64);
+    for s in &case.scripts {
+        a.str(&format!("{:?}", s.cfg.sink));
+        a.u64(s.ops.len() as u64);
+    }
+    for d in co.decisions.iter().take(64) {
+        a.str(&format!("{:?}", d));
+    }
+    if co.decisions.len() >= 2 {
+        st.nontrivial = Some(a.finish());
+    }
+    let mut sh = Hasher64::new();
+    for d in &co.decisions {
+        sh.str(&format!("{:?}", d));
+    }
+    st.states.push(sh.finish());
+    out
+}
+
+// ---------------------------------------------------------------- equivalent API paths
+
+#[derive(Clone, Debug, Serialize, Deserialize)]
+pub struct PairNote {
+    pub transform: String,
+}
+
+/// Returns (variant, name of the transformation) or None if no transformation applies.
+pub fn equivalent_variant(base: &ProgCase, rng: &mut Rng) -> Option<(ProgCase, &'static str)> {
+    let mut order: Vec<u8> = (0..6).collect();
+    for i in (1..order.len()).rev() {
+        let j = rng.usize(i + 1);
+        order.swap(i, j);
+    }
+    for t in order {
+        let mut c = base.clone();
+        match t {
+            0 => {
+                if let Some(v) = c.cfg.video.as_mut() {
+                    v.alias = !v.alias;
+                    return Some((c, "video() vs set_video_track()"));
+                }
+            }
+            1 => {
+                if let Some(a) = c.cfg.audio.as_mut() {
+                    a.alias = !a.alias;
+                    return Some((c, "audio() vs set_audio_track()"));
+                }
+            }
+            2 => {
+                if let Some(m) = c.cfg.meta.as_mut() {
+                    if m.title.is_none() && (m.ctime.is_some() || m.lang.is_some()) {
+                        m.style = 1 - m.style.min(1);
+                        return Some((c, "with_metadata() vs set_create_time()/set_language()"));
+                    }
+                }
+            }
+            3 => {
+                if let Some(pos) = c.ops.iter().position(|o| matches!(o, Op::Finish(_))) {
+                    if let Op::Finish(k) = c.ops[pos] {
+                        let others: Vec<FinishKind> = FINISH_KINDS.iter().copied().filter(|x| *x != k).collect();
+                        c.ops[pos] = Op::Finish(*rng.pick(&others));
+                        // ops after a consuming finish have no object; compare files only
+                        c.ops.truncate(pos + 1);
+                        return Some((c, "finish / flush / finish_in_place / *_with_stats"));
+                    }
+                }
+            }
+            4 => {
+                // encode_* vs explicit timestamps at the same accumulated f64 values
+                if c.ops.iter().any(|o| matches!(o, Op::EncVideo { .. } | Op::EncAudio { .. })) {
+                    let codec = c.cfg.video.as_ref().map(|v| v.codec)?;
+                    let rate = c.cfg.audio_effective().map(|a| a.rate).unwrap_or(0);
+                    // replay the library's accumulators with the results of the base run
+                    let ex = exec::run_prog(base);
+                    let mut av = 0.0f64;
+                    let mut aa = 0.0f64;
+                    let mut vcount = 0u64;
+                    let mut ok = true;
+                    for (i, op) in c.ops.iter_mut().enumerate() {
+                        let accepted = ex.ops.get(i).map(|r| r.res.is_ok()).unwrap_or(false);
+                        match op.clone() {
+                            Op::EncVideo { data, dur_ms, cc } => {
+                                match crate::model::auto_key(codec, &data.0, vcount) {
+                                    Some(k) => *op = Op::Video { pts: F(av), data, key: k, cc },
+                                    None => {
+                                        ok = false;
+                                        break;
+                                    }
+                                }
+                                if accepted {
+                                    av += dur_ms as f64 / 1000.0;
+                                    vcount += 1;
+                                }
+                            }
+                            Op::EncAudio { data, samples } => {
+                                *op = Op::Audio { pts: F(aa), data };
+                                if accepted {
+                                    if rate == 0 {
+                                        ok = false;
+                                        break;
+                                    }
+                                    aa += samples as f64 / rate as f64;
+                                }
+                            }
+                            Op::Video { .. } | Op::VideoDts { .. } => {
+                                if accepted {
+                                    vcount += 1;
+                                }
+                            }
+                            _ => {}
+                        }
+                    }
+                    if ok {
+                        return Some((c, "encode_video/encode_audio vs explicit timestamps"));
+                    }
+                }
+            }
+            _ => {
+                match &c.cfg.audio {
+                    None => {
+                        c.cfg.audio = Some(AudioCfg { codec: ACodec::NoneCodec, rate: *rng.pick(&[0u32, 48000, 7]), channels: *rng.pick(&[0u16, 2, 9]), alias: rng.bool() });
+                        return Some((c, "audio(None, ..) vs no audio call"));
+                    }
+                    Some(a) if a.codec == ACodec::NoneCodec => {
+                        c.cfg.audio = None;
+                        return Some((c, "audio(None, ..) vs no audio call"));
+                    }
+                    _ => {}
+                }
+            }
+        }
+    }
+    None
+}
+
+pub fn eval_pair(base: &ProgCase, variant: &ProgCase, what: &str, st: &mut RunStats) -> Vec<Violation> {
+    let mut out = Vec::new();
+    let a = exec::run_prog(base);
+    let b = exec::run_prog(variant);
+    st.evaluations = 2;
+    let mut th = Hasher64::new();
+    th.u64(crate::checks::trace_hash_prog(&a));
+    th.u64(crate::checks::trace_hash_prog(&b));
+    st.trace_hash = th.finish();
+    if a.first_panic().is_some() || b.first_panic().is_some() {
+        out.extend(crate::oracle::panics("C17", base, &a));
+        out.extend(crate::oracle::panics("C17", variant, &b));
+        return out;
+    }
+    let slug: String = what.chars().filter(|c| c.is_ascii_alphanumeric() || *c == '_' || *c == ' ' || *c == '/').collect();
+    if a.build != b.build {
+        out.push(v("C17", "equivalent-paths-differ", format!("{}:build", slug), format!("[{}] build returned {} vs {}", what, a.build.short(), b.build.short())));
+        return out;
+    }
+    if a.sink.bytes != b.sink.bytes {
+        let pos = a.sink.bytes.iter().zip(b.sink.bytes.iter()).position(|(x, y)| x != y).unwrap_or(a.sink.bytes.len().min(b.sink.bytes.len()));
+        out.push(v("C17", "equivalent-paths-differ", format!("{}:file", slug), format!("[{}] the two paths produce different files ({} vs {} bytes, first difference at byte {})", what, a.sink.bytes.len(), b.sink.bytes.len(), pos)));
+        return out;
+    }
+    // results of all corresponding calls (same positions) must agree, stats included where both report them
+    for i in 0..base.ops.len().min(variant.ops.len()) {
+        let (x, y) = (&a.ops[i], &b.ops[i]);
+        // accept/reject must agree; which of several violated preconditions an error names is C04's business
+        if x.res.is_ok() != y.res.is_ok() {
+            out.push(v("C17", "equivalent-paths-differ", format!("{}:result", slug), format!("[{}] op {}: {} vs {}", what, i, x.res.short(), y.res.short())));
+            return out;
+        }
+        if let (Some(s1), Some(s2)) = (&x.stats, &y.stats) {
+            if s1 != s2 {
+                out.push(v("C17", "equivalent-paths-differ", format!("{}:stats", slug), format!("[{}] op {}: stats {:?} vs {:?}", what, i, s1, s2)));
+                return out;
+            }
+        }
+    }
+    let mut h = Hasher64::new();
+    h.str(what);
+    h.u64(crate::checks::abstract_prog(base, &a, st));
+    st.nontrivial = Some(h.finish());
+    st.count(&format!("pairs: {}", what), 1);
+    out
 }
